@@ -8,6 +8,7 @@ import (
 	"bytes"
 	"context"
 	"encoding/binary"
+	"encoding/hex"
 	"fmt"
 	"io"
 	"sort"
@@ -32,12 +33,12 @@ import (
 // ---- scripted pubsub ----
 
 type fakeBus struct {
-	mu     sync.Mutex
-	subs   map[string][]*fakeSub
-	snaps  map[string][][]peer.ID // per topic: queue of membership snapshots for Peers()
-	last   map[string][]peer.ID
-	polls  map[string]int
-	pubs   []string // topics published on, in order
+	mu    sync.Mutex
+	subs  map[string][]*fakeSub
+	snaps map[string][][]peer.ID // per topic: queue of membership snapshots for Peers()
+	last  map[string][]peer.ID
+	polls map[string]int
+	pubs  []string // topics published on, in order
 }
 
 func newFakeBus() *fakeBus {
@@ -205,7 +206,8 @@ func hxe(b []byte) string {
 	if len(b) == 0 {
 		return "."
 	}
-	return hx(b)
+	// always the full bytes: these strings are decoded again (hx abbreviates long values)
+	return hex.EncodeToString(b)
 }
 
 func joinOrDash(xs []string) string {
